@@ -1,7 +1,7 @@
 (* C16 - honeywords follow the grammar's probabilities.  Theorems only. *)
-From Coq Require Import List Arith Bool QArith.
-From Pcfg Require Import Honey.
-From PcfgGen Require Import Consts_gen.
+From Coq Require Import List Arith Bool QArith ZArith.
+From Pcfg Require Import Honey SmallGenProofsWalk.
+From PcfgGen Require Import Consts_gen Small_walk_gen.
 Import ListNotations.
 
 (* side condition on the source: when rounding leaves the running sum below the
@@ -45,6 +45,74 @@ Theorem C16_exactly_N : forall iters n,
   honey_loop iters n = firstn n (concat iters) /\ length (honey_loop iters n) = n.
 Proof. exact honey_exactly_N. Qed.
 
+(* ---- translator tie: the Python text of PcfgGrammar.random_walk, translated on
+   every run into gen/Small_walk_gen.v, IS the model the theorems above are about ----
+   for every number type and operations (binary64 included), every grammar with a
+   base structure and every draw list that is long enough: the walk the source
+   computes is the model's walk (with the fall-back to the last entry), its
+   base_prob is 1.0 and its prob is _find_prob of the walk *)
+Theorem C16_source_random_walk_is_model :
+  forall (T : Type) (zero one : T) (add mul : T -> T -> T) (leb : T -> T -> bool) (ofnat : nat -> T)
+         (find_prob : list (nat * nat) -> T -> T)
+         (undef_draw : T) (undef_node : nat * nat) (undef_group : T * nat) (undef_base : T * list nat)
+         (g : @hgrammar T) (u0 : T) (us : list T),
+  hbases g <> [] ->
+  (forall b, In b (hbases g) -> length (snd b) <= length us) ->
+  exists w, random_walk zero add mul leb ofnat true g u0 us = Some w /\
+            py_random_walk zero one add mul leb ofnat find_prob undef_draw undef_node undef_group undef_base
+                           g (u0 :: us) = (w, one, find_prob w one).
+Proof. exact (@small_random_walk_eq). Qed.
+
+(* the main statement transported to the source: over Q, the structure
+   random_walk returns for the draw u0 is entry k of self.base exactly when u0
+   lies in (cum_{k-1}, cum_k], an interval whose length is the k-th probability
+   (C16_interval_length_Q) *)
+Theorem C16_source_walk_base_interval_Q :
+  forall one find_prob undef_draw undef_node undef_group undef_base
+         (g : @hgrammar Q) (u0 : Q) (us : list Q) (k : nat),
+  hbases g <> [] ->
+  (forall b, In b (hbases g) -> length (snd b) <= length us) ->
+  (k < length (hbases g))%nat -> Forall (fun w => 0 <= w)%Q (map fst (hbases g)) ->
+  (u0 <= nth k (Qcums (map fst (hbases g))) 0)%Q ->
+  (k = 0%nat \/ (nth (k - 1) (Qcums (map fst (hbases g))) 0 < u0)%Q) ->
+  map fst (fst (fst (py_random_walk 0%Q one Qplus Qmult Qle_bool (fun n => inject_Z (Z.of_nat n)) find_prob
+                       undef_draw undef_node undef_group undef_base g (u0 :: us))))
+  = snd (nth k (hbases g) (0%Q, [])).
+Proof. exact small_walk_base_interval_Q. Qed.
+
+(* ... and position i holds group ix of its variable exactly when the position's
+   draw lies in the interval of that group's weight prob * |values| *)
+Theorem C16_source_walk_group_interval_Q :
+  forall one find_prob undef_draw undef_node undef_group undef_base
+         (g : @hgrammar Q) (u0 : Q) (us : list Q) (i v ix k : nat) (u : Q),
+  hbases g <> [] ->
+  (forall b, In b (hbases g) -> length (snd b) <= length us) ->
+  nth_error (fst (fst (py_random_walk 0%Q one Qplus Qmult Qle_bool (fun n => inject_Z (Z.of_nat n)) find_prob
+                         undef_draw undef_node undef_group undef_base g (u0 :: us)))) i = Some (v, ix) ->
+  nth_error us i = Some u ->
+  let ws := weights Qmult (fun n => inject_Z (Z.of_nat n)) (nth v (htable g) []) in
+  (k < length ws)%nat -> Forall (fun w => 0 <= w)%Q ws ->
+  (u <= nth k (Qcums ws) 0)%Q -> (k = 0%nat \/ (nth (k - 1) (Qcums ws) 0 < u)%Q) ->
+  ix = k.
+Proof. exact small_walk_group_interval_Q. Qed.
+
+(* the hypotheses are satisfiable and the generated function runs: two base
+   structures (1/4: [0], 3/4: [1; 0]), two variables with two groups each *)
+Example C16_source_walk_example :
+  let g := {| hbases := [((1#4)%Q, [0]); ((3#4)%Q, [1; 0])];
+              htable := [[((1#4)%Q, 2); ((1#2)%Q, 1)]; [((1#2)%Q, 1); ((1#6)%Q, 3)]] |} in
+  hbases g <> [] /\ (forall b, In b (hbases g) -> length (snd b) <= 2) /\
+  fst (fst (py_random_walk 0%Q 1%Q Qplus Qmult Qle_bool (fun n => inject_Z (Z.of_nat n)) (fun _ p => p)
+              0%Q (0, 0) (0%Q, 0) (0%Q, []) g [(1#2)%Q; (3#4)%Q; (1#2)%Q])) = [(1, 1); (0, 0)].
+Proof.
+  cbv zeta. split; [discriminate|]. split.
+  - intros b [<-|[<-|[]]]; simpl; auto.
+  - vm_compute. reflexivity.
+Qed.
+
 Print Assumptions C16_select_first.
+Print Assumptions C16_source_random_walk_is_model.
+Print Assumptions C16_source_walk_base_interval_Q.
+Print Assumptions C16_source_walk_group_interval_Q.
 Print Assumptions C16_select_interval_Q.
 Print Assumptions C16_exactly_N.
